@@ -19,7 +19,7 @@ RLIMIT = 80
 CANARY_RLIMIT = 20
 VERUS_EXTRA = []
 
-ALLOW_TRUSTED_RX = [r'^assume_specification (BTreeMap::<K,V,A>::entry|std::collections::btree_map::Entry::<\'a,K,V,A>::or_default)$', r'^external_body (fn|struct) ', r'^external_type_specification', r'^uninterp fn (view|wf|spec_len|rep)$',
+ALLOW_TRUSTED_RX = [r'^uninterp fn eval_ok_', r'^assume_specification (BTreeMap::<K,V,A>::entry|std::collections::btree_map::Entry::<\'a,K,V,A>::or_default)$', r'^external_body (fn|struct) ', r'^external_type_specification', r'^uninterp fn (view|wf|spec_len|rep)$',
                     r'^accept_recursive_types', r'^global size_of']
 
 HEADER = '''#![feature(allocator_api)]
@@ -46,7 +46,7 @@ pub assume_specification<'a, K: Ord, V: Default, A: std::alloc::Allocator + Clon
 
 DROPPED = ['rule functions and their Env structs (extern "Rust", loops over runtime iterators)', 'ModelDelta and its apply_* functions (drain)',
            'close, close_until, canonicalize, recompute_model_indices (generated loop code)', 'iter_* (iterator adapter chains)',
-           'the evaluation functions `f(..) -> Option<_>` (closures with `?` over opaque iterators) and define_* that call them',
+           'the bodies of the evaluation functions `f(..) -> Option<_>` (closures with `?` over opaque iterators; declared by an assumed contract in part GEN-define)',
            'impl Display for the newtypes, `use` lines, weight constants are kept']
 
 
@@ -62,7 +62,8 @@ ASSUMPTIONS = [
     'programs are sampled: the contracts are proved for the module emitted for each probe theory in /verif/probes, for all states, arguments and call histories',
     'runtime contracts: Unification (proved in unit UF) and PrefixTreeN::{new, insert, contains, remove, is_empty, clear} (proved in unit PT) are declared by the same contract text',
     'derived Copy/Clone/PartialEq of the emitted newtypes are structural; BTreeMap::entry / Entry::or_default (element index) are unspecified',
-    'NOT covered: canonicalize, recompute_model_indices, close/close_until, the rule functions, iter_*, the evaluation functions f(..) and define_*, move_new_to_old; model-scoped (_own/_all) indices',
+    'NOT covered: canonicalize, recompute_model_indices, close/close_until, the rule functions, iter_*, move_new_to_old; model-scoped (_own/_all) indices',
+    'part GEN-define (C05): define_<func> is proved against an ASSUMED contract of the evaluation function <func>(..) -> Option<_> (axiom_eval_<func>: Some(y) => the tuple is in the relation, None => no tuple with these arguments), whose body is outside Verus and is bounded-checked by the native harness; the newtype From/Into impls are body-less there (proved in part GEN)',
     'the field-naming convention of display_index_field_name (the contract generator reads names)',
     'usize is 64 bit',
 ]
@@ -93,11 +94,13 @@ pub proof fn lemma_laws_%(T)s() ensures t_laws::<%(T)s>(), forall|v: %(T)s| #[tr
 class Funcs:
     """annotation of the emitted functions of one model"""
 
-    def __init__(self, model, canary):
+    def __init__(self, model, canary, with_define=False):
         self.m = model
         self.canary = canary
+        self.with_define = with_define
         self.items = []
         self.names = []
+        self.decls = []
 
     def fn(self, name):
         it = self.m.src.fn(name, within=self.m.impl, name='%s::%s::%s' % (self.m.name.lower(), self.m.name, name))
@@ -286,6 +289,52 @@ class Funcs:
             hints.append('}')
             it = self.emit(self.fn(r), ('b', 'requires self.inv(),\n        ensures b == self.t_%s().contains(%s),' % (r, G.seq_lit(roots))), '')
             it.tail('\n'.join(hints))
+        # ---- evaluation function (declared by contract only: closures with `?` over opaque iterators) and define_<func>
+        is_func = re.search(r'pub fn %s\(&self,[^)]*\) -> Option<' % re.escape(r), m.impl.orig)
+        if is_func and self.with_define:
+            k = n - 1
+            rt = tys[k]
+            aroots = ['self.root_%s_spec(arg%d).0' % (tys[i], i) for i in range(k)]
+            ev = self.m.src.fn(r, within=m.impl, name='%s::%s::%s' % (m.name.lower(), m.name, r))
+            # The contract is attached through an uninterpreted predicate + an (assumed) lemma: in Verus 0.2026.09.13 a body-less declaration whose
+            # clauses mention the model's spec functions made the unrelated obligations of the newtype's `From`/`Into` impls unprovable.
+            argdecl = ', '.join('arg%d: %s' % (i, m.rels[r][i]) for i in range(k))
+            argl = ', '.join('arg%d' % i for i in range(k))
+            meaning = 'match res { Some(y) => y.0 < self.n_%s() && self.t_%s().contains(%s), None => forall|y: u32| !self.t_%s().contains(%s) }' % (
+                rt, r, G.seq_lit(aroots + ['y.0']), r, G.seq_lit(aroots + ['y']))
+            self.decls.append('''    pub uninterp spec fn eval_ok_%(r)s(&self, %(argdecl)s%(c)sres: Option<%(T)s>) -> bool;
+    /// ASSUMED contract of the evaluation function `%(r)s` (its body -- closures with `?` over opaque iterators -- is outside Verus; bounded-checked by the native harness)
+    #[verifier::external_body]
+    pub proof fn axiom_eval_%(r)s(&self, %(argdecl)s%(c)sres: Option<%(T)s>)
+        requires self.eval_ok_%(r)s(%(argl)s%(c)sres), self.inv()%(rng)s
+        ensures %(meaning)s
+    {}
+''' % {'r': r, 'argdecl': argdecl, 'argl': argl, 'c': ', ' if k else '', 'T': m.rels[r][k], 'meaning': meaning,
+                  'rng': ''.join(', arg%d.0 < self.n_%s()' % (i, tys[i]) for i in range(k))})
+            spec = 'ensures self.eval_ok_%s(%s%sres),' % (r, argl, ', ' if k else '')
+            from units.wbapi import declaration
+            self.decls.append(declaration(ev, 'res', spec))
+            if ('pub fn define_%s(' % r) in m.impl.orig:
+                oroots = ['old(self).root_%s_spec(el%d).0' % (tys[i], i) for i in range(k)]
+                fr_same = ['final(self).t_%s_new() == old(self).t_%s_new()' % (r, r), 'final(self).n_%s() == old(self).n_%s()' % (rt, rt)]
+                post = ['final(self).inv()',
+                        '// returns the existing value when the function is already defined on the arguments ...',
+                        '(exists|y: u32| old(self).t_%s().contains(%s)) ==> (old(self).t_%s().contains(%s) && final(self).t_%s() == old(self).t_%s() && final(self).n_%s() == old(self).n_%s())'
+                        % (r, G.seq_lit(oroots + ['y']), r, G.seq_lit(oroots + ['res.0']), r, r, rt, rt),
+                        '// ... and otherwise a fresh element, and afterwards the function is defined there',
+                        '(forall|y: u32| !old(self).t_%s().contains(%s)) ==> (res.0 == old(self).n_%s() && final(self).n_%s() == old(self).n_%s() + 1 && final(self).t_%s() =~= old(self).t_%s().insert(%s))'
+                        % (r, G.seq_lit(oroots + ['y']), rt, rt, rt, r, r, G.seq_lit(oroots + ['res.0'])),
+                        'final(self).t_%s().contains(%s)' % (r, G.seq_lit(['final(self).root_%s_spec(el%d).0' % (tys[i], i) for i in range(k)] + ['res.0'])),
+                        'forall|i: int| 0 <= i < old(self).n_%s() ==> final(self).rep_%s(i) == old(self).rep_%s(i)' % (rt, rt, rt)]
+                for r2 in m.rels:
+                    if r2 != r:
+                        post += ['final(self).t_%s_new() == old(self).t_%s_new()' % (r2, r2), 'final(self).t_%s_old() == old(self).t_%s_old()' % (r2, r2)]
+                post = [p for p in post if not p.startswith('//')]
+                pre = ['old(self).inv()', 'old(self).n_%s() + 1 < u32::MAX' % rt] + ['el%d.0 < old(self).n_%s()' % (i, tys[i]) for i in range(k)]
+                els_l = ', '.join('el%d' % i for i in range(k))
+                self.emit(self.fn('define_%s' % r), ('res', 'requires %s,\n        ensures %s,' % (', '.join(pre), ',\n            '.join(post))),
+                          'proof { assert forall|res: Option<%s>| #[trigger] self.eval_ok_%s(%s%sres) implies (%s) by { self.axiom_eval_%s(%s%sres); } }'
+                          % (m.rels[r][k], r, els_l, ', ' if k else '', meaning.replace('arg', 'el'), r, els_l, ', ' if k else ''))
         # ---- insert
         els = ['old(self).root_%s_spec(el%d).0' % (tys[i], i) for i in range(n)]
         post = ['final(self).inv()', 'final(self).t_%s() =~= old(self).t_%s().insert(%s)' % (r, r, G.seq_lit(els)),
@@ -344,7 +393,7 @@ class Funcs:
         it.at_end('\n'.join(h))
 
 
-def build(repo, canary=False, probes=None):
+def build(repo, canary=False, probes=None, part='main'):
     files = probe_files() if probes is None else probes
     out = G.generate(files)
     A = Assembly(NAME)
@@ -361,8 +410,15 @@ def build(repo, canary=False, probes=None):
         for T in m.types.values():
             st = m.src.item(r'pub struct %s\(pub u32\);' % T, name=T)
             A.item(st)
-            for pat in (r'impl Into<u32> for %s\s*\{' % T, r'impl From<u32> for %s\s*\{' % T):
-                A.item(m.src.item(pat, name=T))
+            if part == 'main':
+                for pat in (r'impl Into<u32> for %s\s*\{' % T, r'impl From<u32> for %s\s*\{' % T):
+                    A.item(m.src.item(pat, name=T))
+            else:
+                # part 'define': the two conversions are verified against their spec impls in part 'main' (real text); here they are
+                # body-less stand-ins, because Verus 0.2026.09.13 cannot discharge them in a file that also holds the assumed
+                # contracts of the evaluation functions (see DESIGN §10)
+                A.text('impl Into<u32> for %s { #[verifier::external_body] fn into(self) -> u32 { self.0 } }\nimpl From<u32> for %s { #[verifier::external_body] fn from(x: u32) -> Self { %s(x) } }\n' % (T, T, T),
+                       'From/Into of the newtype: proved in part main, trusted here')
             A.text('impl Clone for %s { fn clone(&self) -> Self { *self } }\nimpl Copy for %s {}\nimpl PartialEq for %s { #[verifier::external_body] fn eq(&self, other: &Self) -> (r: bool) ensures r == (self.0 == other.0) { self.0 == other.0 } }\n' % (T, T, T),
                    'stand-ins for #[derive(Copy, Clone, PartialEq)] of the newtype (derived PartialEq is structural)')
             A.text(type_spec_impls(T), 'spec impls for the newtype')
@@ -371,10 +427,13 @@ def build(repo, canary=False, probes=None):
         A.item(m.struct)
         A.text(m.impl.header(), 'impl header of the model (from the emitted text)')
         A.text(G.ghost_impl(m), 'GENERATED ghost accessors and representation invariant')
-        fs = Funcs(m, canary)
-        for it in fs.all():
+        fs = Funcs(m, canary, with_define=(part == 'define'))
+        its = fs.all()
+        for d in fs.decls:
+            A.text(d, 'evaluation function declared by contract only (assumption; bounded-checked by the native harness)')
+        for it in its:
             A.item(it)
-        A.exec_names += fs.names
+        A.exec_names += [x for x in fs.names if part == 'main' or '::define_' in x]
         A.text('}\n}\n', 'impl / module close')
     A.text('} // verus!\nfn main() {}\n', 'footer')
     return A
